@@ -119,6 +119,28 @@ def _alpha_lambdas(body: List[ast.stmt], pre: str) -> List[ast.stmt]:
     return body
 
 
+_BUILTIN_LIKE = {'get', 'copy', 'index', 'count', 'items', 'keys', 'values', 'append', 'pop',
+                 'add', 'update', 'sort', 'reverse', 'join', 'split', 'format', 'issubset',
+                 'union', 'extend', 'insert', 'remove', 'clear', 'any', 'all', 'max', 'min',
+                 'sum', 'astype', 'reshape', 'tolist', 'choice', 'integers', 'random', 'swap',
+                 'seed', 'reset', 'step', 'close', 'read', 'write', 'register'}
+_NAMED: Dict[int, Dict[str, List[Func]]] = {}
+
+
+def _methods_named(index: RepoIndex, name: str) -> List[Func]:
+    tab = _NAMED.get(id(index))
+    if tab is None:
+        tab = _NAMED[id(index)] = {}
+        for mod in index.modules.values():
+            if not mod.relpath.startswith('gym_gridverse/'):
+                continue
+            for c in mod.classes.values():
+                for cc in [c] + list(c.inner.values()):
+                    for mn, m in cc.methods.items():
+                        tab.setdefault(mn, []).append(m)
+    return tab.get(name, [])
+
+
 class Inliner:
     def __init__(self, index: RepoIndex, func: Func, exclude: Optional[Set[str]] = None,
                  depth: int = 2, methods: bool = False, cross: Optional[Set[str]] = None):
@@ -150,6 +172,28 @@ class Inliner:
                    for sub in self.index.subclasses(self.func.cls.name)):
                 return None   # overridden somewhere: not a fixed body
             f = m
+        elif isinstance(call.func, ast.Attribute) and \
+                isinstance(call.func.value, ast.Name) and call.func.value.id not in ('self', 'cls'):
+            # `obj.m(..)` where exactly one class of the package defines a method `m` and that
+            # method updates its receiver (a mutator moved into the class: `door.open()`);
+            # pure one-expression methods are read at expression level instead
+            name = call.func.attr
+            if name.startswith('__') or name in self.exclude or name in _BUILTIN_LIKE:
+                return None
+            cands = _methods_named(self.index, name)
+            if len(cands) != 1 or cands[0].node.decorator_list:
+                return None
+            f = cands[0]
+            stores_self = any(
+                isinstance(n, (ast.Assign, ast.AugAssign, ast.AnnAssign)) and any(
+                    isinstance(t, ast.Attribute) and src_is_self(t.value)
+                    for t in (n.targets if isinstance(n, ast.Assign) else [n.target]))
+                for n in ast.walk(f.node))
+            if not stores_self:
+                return None
+            if self.index.module(f.module.relpath) is not self.module and \
+                    not f.module.relpath.startswith('gym_gridverse/'):
+                return None
         elif not isinstance(call.func, ast.Name):
             return None
         else:
@@ -215,7 +259,11 @@ class Inliner:
         if is_method:
             if not params:
                 return None
-            mp.pop(params[0], None)      # `self` stays `self`
+            if call.func.value.id in ('self', 'cls'):
+                mp.pop(params[0], None)      # `self` stays `self`
+            else:
+                mp[params[0]] = call.func.value.id   # the receiver's own name
+                self.generated.discard(mp[params[0]])
             params = params[1:]
         kwonly = [a.arg for a in fn.args.kwonlyargs]
         defaults: Dict[str, ast.AST] = {}
@@ -718,6 +766,72 @@ def inline_pure_exprs(index: RepoIndex, module: Module, cls, expr: ast.AST,
                 return c
             out = _SubstNames(bound).visit(copy.deepcopy(e))
             return inline_pure_exprs(index, target.module, target.cls, out, depth - 1, cross, keep)
+    return ast.fix_missing_locations(T().visit(copy.deepcopy(expr)))
+
+
+def inline_methods_by_name(index: RepoIndex, expr: ast.AST, depth: int = 3,
+                           exclude: tuple = ()) -> ast.AST:
+    """replace `recv.m(args)` by the body expression of `m` when exactly one class of the
+    package defines a method `m`, that method is a pure one-expression method (locals
+    expanded) and the name is not one of the builtin container methods.  Used by rules as a
+    second reading of an expression they could not classify: a maintainer moved an expression
+    into a new method of Grid / Area / State and the call site now only shows its name."""
+    if depth <= 0:
+        return expr
+    builtin_like = {'get', 'copy', 'index', 'count', 'items', 'keys', 'values', 'append', 'pop',
+                    'add', 'update', 'sort', 'reverse', 'join', 'split', 'format', 'issubset',
+                    'union', 'extend', 'insert', 'remove', 'clear', 'any', 'all', 'max', 'min',
+                    'sum', 'astype', 'reshape', 'tolist', 'choice', 'integers', 'random'}
+    by_name: Dict[str, List[Func]] = {}
+    for mod in index.modules.values():
+        if not mod.relpath.startswith('gym_gridverse/'):
+            continue
+        for c in mod.classes.values():
+            for cc in [c] + list(c.inner.values()):
+                for mn, m in cc.methods.items():
+                    by_name.setdefault(mn, []).append(m)
+
+    class T(ast.NodeTransformer):
+        def visit_Call(self, c: ast.Call):
+            c = self.generic_visit(c)
+            if not isinstance(c.func, ast.Attribute) or c.func.attr.startswith('__') or \
+                    c.func.attr in builtin_like or c.func.attr in exclude:
+                return c
+            if isinstance(c.func.value, ast.Name) and c.func.value.id in ('self', 'cls'):
+                return c
+            cands = by_name.get(c.func.attr, [])
+            if len(cands) != 1:
+                return c
+            m = cands[0]
+            fn = m.node
+            if fn.decorator_list or fn.args.vararg or fn.args.kwarg or \
+                    any(isinstance(a, ast.Starred) for a in c.args) or \
+                    any(k.arg is None for k in c.keywords):
+                return c
+            e = pure_body_expr(fn)
+            if e is None:
+                return c
+            params = [a.arg for a in fn.args.posonlyargs + fn.args.args]
+            if not params:
+                return c
+            bound: Dict[str, ast.AST] = {params[0]: c.func.value}
+            bound.update(zip(params[1:], c.args))
+            for k in c.keywords:
+                bound[k.arg] = k.value
+            defaults = m.param_defaults()
+            for p in params[1:] + [a.arg for a in fn.args.kwonlyargs]:
+                if p not in bound:
+                    if defaults.get(p) is None:
+                        return c
+                    bound[p] = defaults[p]
+            comp_targets = {n.id for g in ast.walk(e) if isinstance(g, ast.comprehension)
+                            for n in ast.walk(g.target) if isinstance(n, ast.Name)}
+            free = {n.id for a in bound.values() for n in ast.walk(a)
+                    if isinstance(n, ast.Name)}
+            if comp_targets & free:
+                return c
+            out = _SubstNames(bound).visit(copy.deepcopy(e))
+            return inline_methods_by_name(index, out, depth - 1, exclude)
     return ast.fix_missing_locations(T().visit(copy.deepcopy(expr)))
 
 
